@@ -139,6 +139,14 @@ def run(ctx):
                     return
                 if len(ids) > 30:
                     ids[:] = ids[-10:]
+        # titles made only of characters a terminal shows nothing for (zero-width, combining, control, soft hyphen): they are not white space, so
+        # they are titles like any other — stored, and given back, as they are; the body next to them stays whole
+        for mode in ("new-json", "set-json", "plan", "new-flags", "epic-json"):
+            for inv in ("\u200b", "\u200d", "\u200e\u200f", "\u0301", "\x07", "\u2060", "\ufeff", "\u00ad", "\x1b", "\u200b\u0301\u200c", "\U000e0001"):
+                if not one_round(ctx, r, st, ids, None, force=(mode, inv, "first line\nsecond line")):
+                    return
+                if len(ids) > 30:
+                    ids[:] = ids[-10:]
         # a body read from stdin in chunks: 2-, 3- and 4-byte characters lying across every likely chunk boundary
         for mode in ("new-bodystdin", "set-bodystdin", "epic-bodystdin"):
             for boundary in ((4096, 65536, 131072) if ctx.quick else (512, 4096, 8192, 32768, 65536, 131072, 262144)):
